@@ -24,12 +24,14 @@ CONSTANTS K, Progs   \* number of threads, set of program indices
 \* p2: new a; a.s1 := a; drop a; collect  -> cycle collected
 \* p3: new a; new b; a.s1 := b; b.s1 := a; drop a; drop b   -> garbage cycle left buffered
 \* p4: setcfg(auto on); new; new; new     -> automatic collections
-Len_(p) == CASE p = 1 -> 3 [] p = 2 -> 4 [] p = 3 -> 6 [] p = 4 -> 4
+\* p5: new a; a.s1 := a                  -> the thread exits holding a handle to a member of a cycle (strong count 2)
+Len_(p) == CASE p = 1 -> 3 [] p = 2 -> 4 [] p = 3 -> 6 [] p = 4 -> 4 [] p = 5 -> 2
 Step(p, i, s) ==
   CASE p = 1 -> (CASE i = 1 -> [s EXCEPT !.alloc = @ + 1] [] i = 2 -> s [] i = 3 -> [s EXCEPT !.buf = @ + 1])
     [] p = 2 -> (CASE i = 1 -> [s EXCEPT !.alloc = @ + 1] [] i = 2 -> s [] i = 3 -> [s EXCEPT !.buf = @ + 1]
                    [] i = 4 -> [s EXCEPT !.alloc = @ - 1, !.buf = 0, !.exec = @ + 1])
     [] p = 3 -> (CASE i \in {1, 2} -> [s EXCEPT !.alloc = @ + 1] [] i \in {3, 4} -> s [] i \in {5, 6} -> [s EXCEPT !.buf = @ + 1])
+    [] p = 5 -> (CASE i = 1 -> [s EXCEPT !.alloc = @ + 1] [] i = 2 -> s)
     [] p = 4 -> (CASE i = 1 -> [s EXCEPT !.auto = TRUE] [] i = 2 -> [s EXCEPT !.alloc = @ + 1]
                    [] i \in {3, 4} -> [s EXCEPT !.alloc = @ + 1, !.exec = @ + 1])
 Zero == [alloc |-> 0, buf |-> 0, exec |-> 0, auto |-> FALSE]
